@@ -38,7 +38,12 @@ Inv == {U(f, u) : f \in Inv1, u \in Inner} \cup {B("mul", x, U(f, x)) : f \in In
 Other == {U("abs", x), U("sign", x), U("floor", x), U("gamma", x), U("loggamma", x), U("zeta", x), B("atan2", x, y), B("beta", x, y),
           TFn("f", <<x>>), TFn("g", <<B("pow", x, TInt(2)), y>>), U("lambertw", x), B("polygamma", TInt(1), x), U("conjugate", x),
           TOp("max", <<x, y>>), B("kronecker_delta", x, y), TOp("piecewise", <<x, B("Lt", x, TInt(0)), B("pow", x, TInt(2)), T("True", <<>>, "", 0, 0)>>)}
-Fam == [arithc |-> Alg0 \cup Inv, angle |-> Trig, ints |-> Hyp \cup Other]
+\* linear combinations c*f + h (the sum rule with scaled terms whose derivative is itself a sum)
+Lin(S) == {B("add", B("mul", c, e), h) : c \in {TInt(3), TRat(-2, 3)}, e \in S, h \in {y, B("mul", x, y)}}
+          \cup {TOp("add", <<B("mul", TInt(5), B("mul", x, e)), B("pow", x, TInt(2)), TInt(1)>>) : e \in S}
+Fam == [arithc |-> Alg0 \cup Inv \cup Lin({U("log", x), U("atan", x), U("sqrt", x), B("pow", B("add", x, TInt(1)), TInt(-1)), B("mul", x, U("log", x))}),
+        angle |-> Trig \cup Lin({U(f, x) : f \in Trig1} \cup {B("mul", x, U("tan", x)), B("pow", U("sin", x), TInt(2))}),
+        ints |-> Hyp \cup Other \cup Lin({U(f, x) : f \in Hyp1} \cup {B("mul", x, U("exp", x))})]
 Keep(S, n) == IF Thorough \/ Cardinality(S) <= n THEN S ELSE RandomSubset(n, S)
 First1 == UNION {{[op |-> "ev", chk |-> "val+same", envs |-> en, ts |-> <<Diff(e, x, 1), Diff(e, x, 0)>>] : e \in Fam[en]} : en \in DOMAIN Fam}
 Second == UNION {{[op |-> "ev", chk |-> "val", envs |-> en, ts |-> <<Diff(Diff(e, x, 1), x, 1)>>] : e \in Keep(Fam[en], 120)} : en \in DOMAIN Fam}
